@@ -46,7 +46,7 @@ use serde::{Deserialize, Serialize};
 
 use crate::{
     error::{EpbdError, Result},
-    types::{BuildingNeeds, Carrier, CType, EProd, Energy, HasValues, Meta, MetaVec, ProdSource, Service},
+    types::{BuildingNeeds, Carrier, CType, EProd, Energy, HasValues, Meta, MetaVec, Needs, ProdSource, Service},
     vecops::{veclistsum, vecvecdif, vecvecsum},
 };
 
@@ -84,12 +84,26 @@ impl fmt::Display for Components {
             .map(|v| format!("{}", v))
             .collect::<Vec<_>>()
             .join("\n");
-        let data_lines = self
+        let mut data_lines = self
             .data
             .iter()
             .map(|v| format!("{}", v))
             .collect::<Vec<_>>()
             .join("\n");
+        // Demandas del edificio (líneas DEMANDA)
+        for (service, values) in [
+            (Service::ACS, &self.needs.ACS),
+            (Service::CAL, &self.needs.CAL),
+            (Service::REF, &self.needs.REF),
+        ] {
+            if let Some(values) = values {
+                let needs = Needs {
+                    service,
+                    values: values.clone(),
+                };
+                data_lines.push_str(&format!("\n{}", needs));
+            }
+        }
         write!(f, "{}\n{}", meta_lines, data_lines)
     }
 }
